@@ -125,7 +125,12 @@ func (rs *runState) judge(prop string, clientFinished bool, out *core.Outcome) {
 		seenErr[e.What] = true
 		sim.Violate(prop, "host-framing", e.What+"/"+tag, "the TNC model could not parse what the host sent on %s at %v: %s", e.Stream, e.At, e.Detail)
 	}
-	if stream, partial := rs.model.PartialFrame(); partial && strict {
+	if stream, partial, hostClosed := rs.model.PartialFrame(); partial && hostClosed {
+		// TNC.Close shut the port between the two writes of a command frame;
+		// C14 says nothing about what a closing host leaves behind: counted only
+		sim.Probe("host-closed-port-inside-a-frame")
+		_ = stream
+	} else if partial && strict {
 		sim.Violate(prop, "host-framing", "incomplete-frame/"+tag, "stream %s is quiet but ends inside a frame (the model is still waiting for the rest of it)", stream)
 	}
 
